@@ -769,6 +769,20 @@ Lemma f10_witness_100 :
   (5 # 4) * f10_mx * (100 - 0) + inject_Z (4 * 1000 * 2) < inject_Z (window_bytes 0 100 ops ds).
 Proof. vm_compute. repeat split. Qed.
 
+(** the F10 witness in the form props/C13.v states *)
+Lemma rate_125_witness : exists mx ops u v,
+  0 < mx /\ u <= v /\
+  disciplined BW_ALPHA mx bucket0 [] 0 ops = true /\
+  never_refused 2 ops (run_decs BW_ALPHA mx bucket0 ops) = true /\
+  (5 # 4) * mx * (v - u) + inject_Z (4 * max_amt ops * 2) <
+    inject_Z (window_bytes u v ops (run_decs BW_ALPHA mx bucket0 ops)).
+Proof.
+  exists f10_mx, (f10_history 100), 0, 100.
+  destruct f10_witness_100 as (H1 & H2 & H3 & _ & H5).
+  split; [reflexivity|]. split; [discriminate|]. split; [exact H1|]. split; [exact H2|].
+  replace (max_amt (f10_history 100)) with 1000%Z by (symmetry; exact H3). exact H5.
+Qed.
+
 (** * Witness of F11: one scheduled release with time_delta = 0 poisons the rate *)
 Definition f11_mx : Q := 1000.
 Definition f11_prefix : list bop :=
@@ -863,4 +877,605 @@ Proof.
   apply andb_prop in H1 as [Ha Hl]. split; [now apply Z.leb_le|].
   intros lt El. rewrite El in Hl. apply andb_prop in Hl as [Hl1 Hl2].
   apply negb_true_iff in Hl1. split; [now apply Qle_bool_false|now apply Qle_bool_true].
+Qed.
+
+(** * [scheduled_window]: scheduled releases in a window [u, v] *)
+
+(** seconds' worth (amount / max) of the scheduled release performed by [op],
+    if it is one and its clock reading lies in [u, v] *)
+Definition rel_secs (mx u v : Q) (b : bucket) (op : bop) : Q :=
+  match op with
+  | Consume amt tok now =>
+      if is_scheduled tok (sch b) && Qle_bool u now && Qle_bool now v
+      then inject_Z amt / mx else 0
+  | Cancel _ => 0
+  end.
+
+Fixpoint released_secs (alpha mx u v : Q) (b : bucket) (ops : list bop) : Q :=
+  match ops with
+  | [] => 0
+  | op :: r => rel_secs mx u v b op + released_secs alpha mx u v (fst (bstep alpha mx b op)) r
+  end.
+
+Definition rel_bytes (u v : Q) (b : bucket) (op : bop) : Z :=
+  match op with
+  | Consume amt tok now =>
+      if is_scheduled tok (sch b) && Qle_bool u now && Qle_bool now v then amt else 0%Z
+  | Cancel _ => 0%Z
+  end.
+
+(** bytes of scheduled releases at clock readings in [u, v] *)
+Fixpoint released_bytes (alpha mx u v : Q) (b : bucket) (ops : list bop) : Z :=
+  match ops with
+  | [] => 0%Z
+  | op :: r => (rel_bytes u v b op + released_bytes alpha mx u v (fst (bstep alpha mx b op)) r)%Z
+  end.
+
+(** at every point of the history the amounts scheduled sum to at most [B] *)
+Fixpoint outstanding_le (alpha mx : Q) (B : Z) (b : bucket) (ops : list bop) : Prop :=
+  (sum_amt (tokens (sch b)) <= B)%Z /\
+  match ops with
+  | [] => True
+  | op :: r => outstanding_le alpha mx B (fst (bstep alpha mx b op)) r
+  end.
+
+Lemma released_secs_bytes alpha mx u v ops : 0 < mx -> forall b,
+  released_secs alpha mx u v b ops == inject_Z (released_bytes alpha mx u v b ops) / mx.
+Proof.
+  intros Hm. induction ops as [|op ops IH]; intros b; cbn [released_secs released_bytes].
+  - unfold Qdiv. now rewrite Qmult_0_l.
+  - rewrite IH, inject_Z_plus. unfold rel_secs, rel_bytes. destruct op as [amt tok now|tok].
+    + destruct (is_scheduled tok (sch b) && Qle_bool u now && Qle_bool now v); field; lra.
+    + field; lra.
+Qed.
+
+(** the ghost list runs parallel to the scheduled tokens (newest first); for
+    every scheduled token: the seconds released so far plus the seconds of
+    the token and of everything scheduled before it fit between [u] and any
+    time from which the token may come back *)
+Fixpoint suffix_inv (R t u Bt : Q) (l : list (Z * entry)) (g : list (Z * Q)) : Prop :=
+  match l, g with
+  | [], [] => True
+  | (k, e) :: l', (k', er) :: g' =>
+      k = k' /\
+      (forall tau, t <= tau -> u <= tau -> er <= tau ->
+                   R + (time_to_consume e + sum_ttc l') <= (tau - u) + Bt) /\
+      suffix_inv R t u Bt l' g'
+  | _, _ => False
+  end.
+
+Definition ttc_nonneg (l : list (Z * entry)) : Prop :=
+  Forall (fun p => 0 <= time_to_consume (snd p)) l.
+
+Lemma entry_ok_ttc_nonneg mx l : 0 < mx -> Forall (entry_ok mx) l -> ttc_nonneg l.
+Proof.
+  intros Hm H. unfold ttc_nonneg. eapply Forall_impl; [|exact H].
+  intros [k e] [He Ha]. cbn [snd] in *. rewrite He. now apply div_nonneg.
+Qed.
+
+Lemma ttc_nonneg_sum l : ttc_nonneg l -> 0 <= sum_ttc l.
+Proof.
+  induction 1 as [|[k e] l H HF IH]; cbn [sum_ttc]; [apply Qle_refl|]. cbn [snd] in H. lra.
+Qed.
+
+Lemma suffix_keys R t u Bt l : forall g, suffix_inv R t u Bt l g -> map fst g = keys l.
+Proof.
+  induction l as [|[k e] l IH]; intros [|[k' er] g]; cbn [suffix_inv keys map fst]; try tauto.
+  intros (-> & _ & H). f_equal. now apply IH.
+Qed.
+
+Lemma glookup_none_notin tok g : ~ In tok (map fst g) -> glookup tok g = None /\ gremove tok g = g.
+Proof.
+  induction g as [|[k t] g IH]; cbn [glookup gremove map fst In]; [tauto|].
+  intros H. destruct (Z.eqb_spec k tok); [tauto|]. destruct IH as [-> ->]; tauto.
+Qed.
+
+Lemma suffix_weaken R R' t t' u Bt l : ttc_nonneg l -> t <= t' ->
+  (R' == R \/ forall tau, t' <= tau -> u <= tau -> R' + sum_ttc l <= (tau - u) + Bt) ->
+  forall g, suffix_inv R t u Bt l g -> suffix_inv R' t' u Bt l g.
+Proof.
+  intros Hnn Ht. induction Hnn as [|[k e] l Hk Hnn IH]; intros Hor [|[k' er] g];
+    cbn [suffix_inv sum_ttc] in *; try tauto.
+  intros (-> & Hc & Hs). split; [reflexivity|]. cbn [snd] in Hk.
+  pose proof (ttc_nonneg_sum l Hnn) as Hl. split.
+  - intros tau H1 H2 H3. destruct Hor as [E|Hb].
+    + rewrite E. apply Hc; lra.
+    + apply Hb; assumption.
+  - apply IH; [|exact Hs]. destruct Hor as [E|Hb]; [now left|right].
+    intros tau H1 H2. specialize (Hb tau H1 H2). lra.
+Qed.
+
+Lemma suffix_lookup R t u Bt tok l : ttc_nonneg l -> forall g e,
+  suffix_inv R t u Bt l g -> lookup tok l = Some e ->
+  exists er, glookup tok g = Some er /\
+    forall tau, t <= tau -> u <= tau -> er <= tau -> R + time_to_consume e <= (tau - u) + Bt.
+Proof.
+  induction 1 as [|[k e0] l Hk Hnn IH]; intros [|[k' er] g] e; cbn [suffix_inv lookup glookup];
+    try tauto; try discriminate.
+  intros (<- & Hc & Hs). cbn [snd] in Hk. destruct (Z.eqb_spec k tok) as [->|Hne].
+  - intros [= <-]. exists er. split; [reflexivity|]. intros tau H1 H2 H3.
+    specialize (Hc tau H1 H2 H3). pose proof (ttc_nonneg_sum l Hnn). lra.
+  - intros El. now apply IH.
+Qed.
+
+Lemma ttc_nonneg_remove tok l : ttc_nonneg l -> ttc_nonneg (remove_tok tok l).
+Proof. apply forall_remove. Qed.
+
+Lemma suffix_remove R R' t t' u Bt tok l : NoDup (keys l) -> ttc_nonneg l -> t <= t' -> R <= R' ->
+  forall g, suffix_inv R t u Bt l g ->
+  match lookup tok l with
+  | Some e => R' <= R + time_to_consume e /\
+              (R' == R \/ exists er, glookup tok g = Some er /\ er <= t')
+  | None => R' == R
+  end ->
+  suffix_inv R' t' u Bt (remove_tok tok l) (gremove tok g).
+Proof.
+  intros Hnd Hnn Ht HR. induction l as [|[k e0] l IH]; intros [|[k' er0] g];
+    cbn [suffix_inv lookup remove_tok gremove glookup]; try tauto.
+  intros (<- & Hc & Hs). cbn [keys map fst] in Hnd. fold (keys l) in Hnd.
+  inversion Hnd as [|? ? Hnin Hnd']; subst. inversion Hnn as [|? ? Hk Hnn']; subst. cbn [snd] in Hk.
+  pose proof (suffix_keys _ _ _ _ _ _ Hs) as Hkeys.
+  destruct (Z.eqb_spec k tok) as [->|Hne].
+  - intros [Hle Hor].
+    rewrite (remove_notin tok l) by now apply lookup_none_notin.
+    assert (Hg : ~ In tok (map fst g)) by now rewrite Hkeys.
+    rewrite (proj2 (glookup_none_notin tok g Hg)).
+    apply (suffix_weaken R R' t t' u Bt l Hnn' Ht); [|exact Hs].
+    destruct Hor as [E|(er & [= <-] & Her)]; [now left|right].
+    intros tau H1 H2. specialize (Hc tau ltac:(lra) H2 ltac:(lra)). lra.
+  - intros Hm. cbn [suffix_inv]. split; [reflexivity|]. split.
+    + intros tau H1 H2 H3. specialize (Hc tau ltac:(lra) H2 H3).
+      destruct (lookup tok l) as [e|] eqn:El.
+      * rewrite (sum_ttc_remove tok l e Hnd' El) in Hc. destruct Hm as [Hle _]. lra.
+      * rewrite (remove_notin tok l El). lra.
+    + apply IH; assumption.
+Qed.
+
+Record win_inv (mx u v Bt R t : Q) (b : bucket) (g : list (Z * Q)) : Prop := {
+  wi_inv : Inv mx b;
+  wi_main : forall tau, t <= tau -> u <= tau -> R <= (tau - u) + Bt;
+  wi_zero : t < u -> R == 0;
+  wi_v : R <= (v - u) + Bt;
+  wi_suf : suffix_inv R t u Bt (tokens (sch b)) g
+}.
+
+Lemma rel_secs_unscheduled mx u v b amt tok now :
+  is_scheduled tok (sch b) = false -> rel_secs mx u v b (Consume amt tok now) = 0.
+Proof. intros H. unfold rel_secs. now rewrite H. Qed.
+
+Lemma win_step alpha mx u v B R t b g op :
+  0 <= alpha -> alpha <= 1 -> 0 < mx -> u <= v ->
+  win_inv mx u v (inject_Z B / mx) R t b g ->
+  op_disciplined b g t op = true ->
+  (sum_amt (tokens (sch (fst (bstep alpha mx b op)))) <= B)%Z ->
+  win_inv mx u v (inject_Z B / mx) (R + rel_secs mx u v b op) (op_clock t op)
+          (fst (bstep alpha mx b op)) (gstep g op (snd (bstep alpha mx b op))).
+Proof.
+  intros A0 A1 Hm Huv [Hi Hmain Hzero Hv Hsuf] Hd HB. set (Bt := inject_Z B / mx) in *.
+  assert (Hok : op_ok op).
+  { destruct op as [amt tok now|tok]; cbn [op_ok]; [|exact I].
+    cbn [op_disciplined] in Hd. apply andb_prop in Hd as [Hd _]. apply andb_prop in Hd as [_ Hd].
+    now apply Z.leb_le. }
+  pose proof (bstep_inv alpha mx b op A0 A1 Hm Hok Hi) as Hi'.
+  pose proof (wait_formula_state mx _ Hm Hi') as Hw'.
+  assert (HBt : total_wait (sch (fst (bstep alpha mx b op))) <= Bt).
+  { rewrite Hw'. unfold Bt. apply Qmult_le_compat_r; [now rewrite <- Zle_Qle|].
+    apply Qlt_le_weak, Qinv_lt_0_compat, Hm. }
+  destruct Hi as [[Hnd Hwait Hoks] Hrate].
+  pose proof (entry_ok_ttc_nonneg mx _ Hm Hoks) as Hnn.
+  pose proof (suffix_keys _ _ _ _ _ _ Hsuf) as Hkeys.
+  destruct op as [amt tok now|tok]; cbn [op_clock op_disciplined] in *.
+  - apply andb_prop in Hd as [Hd Hd3]. apply andb_prop in Hd as [Hd1 Hd2].
+    apply Qle_bool_true in Hd1. apply Z.leb_le in Hd2.
+    cbn [bstep] in *. unfold consume_with in *.
+    destruct (is_scheduled tok (sch b)) eqn:Es.
+    + (* scheduled release *)
+      destruct (proj1 (is_scheduled_lookup _ _) Es) as [e El]. rewrite El in Hd3.
+      destruct (suffix_lookup R t u Bt tok _ Hnn g e Hsuf El) as (er & Eg & Hown).
+      rewrite Eg in Hd3. apply andb_prop in Hd3 as [Her Hamt].
+      apply Qle_bool_true in Her. apply Z.eqb_eq in Hamt. subst amt.
+      destruct (forall_lookup _ _ _ _ Hoks El) as [k0 [Hte _]]. cbn [snd] in Hte.
+      destruct (process_spec mx (sch b) tok e Hm (Build_sched_inv _ _ Hnd Hwait Hoks) El)
+        as (_ & Htok & _).
+      cbn [fst snd sch gstep] in *.
+      set (d := rel_secs mx u v b (Consume (sched_amt e) tok now)).
+      assert (Hd0 : 0 <= d /\ d <= time_to_consume e /\
+                    (now < u -> d == 0) /\ (~ d == 0 -> u <= now /\ now <= v)).
+      { unfold d, rel_secs. rewrite Es. cbn [andb].
+        pose proof (div_nonneg (sched_amt e) mx Hm Hd2) as Hdn.
+        destruct (Qle_bool u now) eqn:E1; cbn [andb].
+        - apply Qle_bool_true in E1. destruct (Qle_bool now v) eqn:E2.
+          + apply Qle_bool_true in E2. rewrite Hte. repeat split; try lra; try (intros; lra).
+          + rewrite Hte. repeat split; try lra; try (intros H; now elim H).
+        - apply Qle_bool_false in E1. rewrite Hte. repeat split; try lra; try (intros H; now elim H). }
+      destruct Hd0 as (D0 & D1 & D2 & D3).
+      assert (Hmain' : forall tau, now <= tau -> u <= tau -> R + d <= tau - u + Bt).
+      { intros tau H1 H2. specialize (Hown tau ltac:(lra) H2 ltac:(lra)). lra. }
+      split; [exact Hi'|exact Hmain'| | |].
+      * intros Hlt. rewrite (D2 Hlt), (Hzero ltac:(lra)). ring.
+      * destruct (Qeq_dec d 0) as [E|E]; [rewrite E; lra|].
+        destruct (D3 E) as [H1 H2]. specialize (Hmain' now ltac:(lra) H1). lra.
+      * cbn [sch]. rewrite Htok.
+        apply (suffix_remove R (R + d) t now u Bt tok _ Hnd Hnn Hd1 ltac:(lra) g Hsuf).
+        rewrite El. split; [lra|]. right. exists er. now split.
+    + (* decided by the rate test *)
+      pose proof (proj2 (is_scheduled_lookup _ _) Es) as El. clear Hd3.
+      assert (Hg : ~ In tok (map fst g)) by (rewrite Hkeys; now apply lookup_none_notin).
+      rewrite (rel_secs_unscheduled mx u v b amt tok now Es).
+      assert (HR : R + 0 == R) by ring.
+      destruct (exceeds mx (projected_rate alpha (trk b) amt now)).
+      * (* refused: scheduled now *)
+        unfold schedule_consumption in *. cbn [fst snd sch tokens total_wait gstep] in *.
+        rewrite (remove_notin _ _ El) in *.
+        set (w := Qred (total_wait (sch b) + Qred (inject_Z amt / mx))) in *.
+        assert (Ew : w == sum_ttc (tokens (sch b)) + Qred (inject_Z amt / mx)).
+        { unfold w. rewrite Qred_correct, Hwait. reflexivity. }
+        split; [exact Hi'| | | |].
+        -- intros tau H1 H2. rewrite HR. apply Hmain; lra.
+        -- intros Hlt. rewrite HR. apply Hzero. lra.
+        -- now rewrite HR.
+        -- cbn [suffix_inv time_to_consume]. split; [reflexivity|]. split.
+           ++ intros tau H1 H2 H3. rewrite HR. unfold time_to_consume at 1.
+              destruct (Qlt_le_dec now u) as [Hlt|Hge].
+              ** rewrite (Hzero ltac:(lra)). lra.
+              ** specialize (Hmain now Hd1 Hge). lra.
+           ++ apply (suffix_weaken R (R + 0) t now u Bt _ Hnn Hd1); [now left|exact Hsuf].
+      * (* granted at once *)
+        cbn [fst snd sch gstep] in *. rewrite (proj2 (glookup_none_notin tok g Hg)).
+        split; [exact Hi'| | | |].
+        -- intros tau H1 H2. rewrite HR. apply Hmain; lra.
+        -- intros Hlt. rewrite HR. apply Hzero. lra.
+        -- now rewrite HR.
+        -- apply (suffix_weaken R (R + 0) t now u Bt _ Hnn Hd1); [now left|exact Hsuf].
+  - (* cancel *)
+    cbn [bstep fst snd rel_secs gstep] in *. assert (HR : R + 0 == R) by ring.
+    split; [exact Hi'| | | |].
+    + intros tau H1 H2. rewrite HR. now apply Hmain.
+    + intros Hlt. rewrite HR. now apply Hzero.
+    + now rewrite HR.
+    + unfold cancel. destruct (is_scheduled tok (sch b)) eqn:Es.
+      * destruct (proj1 (is_scheduled_lookup _ _) Es) as [e El].
+        destruct (process_spec mx (sch b) tok e Hm (Build_sched_inv _ _ Hnd Hwait Hoks) El)
+          as (_ & Htok & _).
+        cbn [sch]. rewrite Htok.
+        apply (suffix_remove R (R + 0) t t u Bt tok _ Hnd Hnn (Qle_refl t) ltac:(lra) g Hsuf).
+        rewrite El. pose proof (forall_lookup _ _ _ _ Hnn El) as [k0 Hk0]. cbn [snd] in Hk0.
+        split; [lra|now left].
+      * pose proof (proj2 (is_scheduled_lookup _ _) Es) as El.
+        assert (Hg : ~ In tok (map fst g)) by (rewrite Hkeys; now apply lookup_none_notin).
+        rewrite (proj2 (glookup_none_notin tok g Hg)).
+        apply (suffix_weaken R (R + 0) t t u Bt _ Hnn (Qle_refl t)); [now left|exact Hsuf].
+Qed.
+
+Lemma win_run alpha mx u v B : 0 <= alpha -> alpha <= 1 -> 0 < mx -> u <= v ->
+  forall ops R t b g, win_inv mx u v (inject_Z B / mx) R t b g ->
+  disciplined alpha mx b g t ops = true -> outstanding_le alpha mx B b ops ->
+  R + released_secs alpha mx u v b ops <= (v - u) + inject_Z B / mx.
+Proof.
+  intros A0 A1 Hm Huv. induction ops as [|op ops IH]; intros R t b g Hw Hd Ho;
+    cbn [disciplined released_secs outstanding_le] in *.
+  - rewrite Qplus_0_r. now destruct Hw.
+  - apply andb_prop in Hd as [Hd1 Hd2]. destruct Ho as [_ Ho].
+    rewrite Qplus_assoc. apply (IH _ _ _ _ (win_step alpha mx u v B R t b g op A0 A1 Hm Huv Hw Hd1
+                                    ltac:(destruct ops; apply Ho)) Hd2 Ho).
+Qed.
+
+(** In any window [u, v] the scheduled releases of a disciplined history move
+    at most max (v - u) bytes plus [B], a bound on the bytes scheduled at any
+    one time. *)
+Lemma scheduled_window_gen alpha mx B ops u v t0 :
+  0 <= alpha -> alpha <= 1 -> 0 < mx -> u <= v ->
+  disciplined alpha mx bucket0 [] t0 ops = true -> outstanding_le alpha mx B bucket0 ops ->
+  inject_Z (released_bytes alpha mx u v bucket0 ops) <= mx * (v - u) + inject_Z B.
+Proof.
+  intros A0 A1 Hm Huv Hd Ho.
+  assert (HB : (0 <= B)%Z) by (destruct ops; apply Ho).
+  assert (HBt : 0 <= inject_Z B / mx) by now apply div_nonneg.
+  assert (Hw : win_inv mx u v (inject_Z B / mx) 0 t0 bucket0 []).
+  { split; [apply bucket0_inv| | | |exact I].
+    - intros tau _ H. lra.
+    - intros _. reflexivity.
+    - lra. }
+  pose proof (win_run alpha mx u v B A0 A1 Hm Huv ops 0 t0 bucket0 [] Hw Hd Ho) as H.
+  rewrite Qplus_0_l, (released_secs_bytes alpha mx u v ops Hm) in H.
+  set (x := inject_Z (released_bytes alpha mx u v bucket0 ops)) in *.
+  setoid_replace x with (mx * (x / mx)) by (field; lra).
+  setoid_replace (mx * (v - u) + inject_Z B) with (mx * (v - u + inject_Z B / mx)) by (field; lra).
+  apply Qmult_le_l; assumption.
+Qed.
+
+(** [B] in terms of streams: if the history uses at most the tokens [toks]
+    and no request exceeds [amax], at most [length toks * amax] bytes are
+    ever scheduled at one time. *)
+Definition op_within (toks : list Z) (amax : Z) (op : bop) : Prop :=
+  In (op_tok op) toks /\ match op with Consume amt _ _ => (0 <= amt <= amax)%Z | Cancel _ => True end.
+
+Definition entries_within (toks : list Z) (amax : Z) (l : list (Z * entry)) : Prop :=
+  Forall (fun p => In (fst p) toks /\ (sched_amt (snd p) <= amax)%Z) l.
+
+Lemma sum_amt_le_len toks amax l : (0 <= amax)%Z -> entries_within toks amax l ->
+  (sum_amt l <= Z.of_nat (length l) * amax)%Z.
+Proof.
+  intros Ha. induction 1 as [|[k e] l [_ H] HF IH]; cbn [sum_amt length]; [lia|].
+  cbn [snd] in H. lia.
+Qed.
+
+Lemma entries_within_bound toks amax l : (0 <= amax)%Z -> NoDup (keys l) ->
+  entries_within toks amax l -> (sum_amt l <= Z.of_nat (length toks) * amax)%Z.
+Proof.
+  intros Ha Hnd Hw. pose proof (sum_amt_le_len toks amax l Ha Hw) as H.
+  assert (Hl : (length l <= length toks)%nat).
+  { rewrite <- (map_length fst l). apply NoDup_incl_length; [exact Hnd|].
+    intros k Hk. apply in_map_iff in Hk as ([k' e] & <- & Hin).
+    unfold entries_within in Hw. rewrite Forall_forall in Hw. now destruct (Hw _ Hin). }
+  nia.
+Qed.
+
+Lemma bstep_entries_within alpha mx toks amax b op : op_within toks amax op ->
+  entries_within toks amax (tokens (sch b)) ->
+  entries_within toks amax (tokens (sch (fst (bstep alpha mx b op)))).
+Proof.
+  intros [Hin Hop] Hw. destruct op as [amt tok now|tok]; cbn [bstep op_tok] in *.
+  - unfold consume_with. destruct (is_scheduled tok (sch b)); cbn [fst sch].
+    + unfold process_scheduled_consumption. destruct (lookup tok (tokens (sch b))); [|exact Hw].
+      cbn [tokens]. now apply forall_remove.
+    + destruct (exceeds mx _); [|exact Hw]. unfold schedule_consumption. cbn [fst sch tokens].
+      constructor; [cbn [fst snd sched_amt]; split; [exact Hin|lia]|now apply forall_remove].
+  - cbn [fst]. unfold cancel. destruct (is_scheduled tok (sch b)); [|exact Hw]. cbn [sch].
+    unfold process_scheduled_consumption. destruct (lookup tok (tokens (sch b))); [|exact Hw].
+    cbn [tokens]. now apply forall_remove.
+Qed.
+
+Lemma op_within_ok toks amax op : op_within toks amax op -> op_ok op.
+Proof. intros [_ H]. destruct op; cbn [op_ok]; [lia|exact I]. Qed.
+
+Lemma outstanding_le_streams alpha mx toks amax :
+  0 <= alpha -> alpha <= 1 -> 0 < mx -> (0 <= amax)%Z ->
+  forall ops b, Inv mx b -> entries_within toks amax (tokens (sch b)) ->
+  Forall (op_within toks amax) ops ->
+  outstanding_le alpha mx (Z.of_nat (length toks) * amax) b ops.
+Proof.
+  intros A0 A1 Hm Ha. induction ops as [|op ops IH]; intros b Hi Hw Hops; cbn [outstanding_le].
+  - split; [|exact I]. apply entries_within_bound; [exact Ha|apply Hi|exact Hw].
+  - inversion Hops as [|? ? Hop Hops']; subst.
+    split; [apply entries_within_bound; [exact Ha|apply Hi|exact Hw]|].
+    apply IH; [|now apply bstep_entries_within|exact Hops'].
+    apply bstep_inv; try assumption. now apply (op_within_ok toks amax).
+Qed.
+
+Lemma scheduled_window_streams alpha mx toks amax ops u v t0 :
+  0 <= alpha -> alpha <= 1 -> 0 < mx -> u <= v -> (0 <= amax)%Z ->
+  disciplined alpha mx bucket0 [] t0 ops = true -> Forall (op_within toks amax) ops ->
+  inject_Z (released_bytes alpha mx u v bucket0 ops) <=
+  mx * (v - u) + inject_Z (Z.of_nat (length toks) * amax).
+Proof.
+  intros A0 A1 Hm Huv Ha Hd Hops. apply (scheduled_window_gen alpha mx _ ops u v t0); try assumption.
+  apply (outstanding_le_streams alpha mx toks amax A0 A1 Hm Ha); [apply bucket0_inv|constructor|exact Hops].
+Qed.
+
+(** * Immediate grants in mixed segments
+
+    Also when scheduled releases are interleaved, the grants decided by the
+    rate test carry at most (1/alpha) max (t1 - t0) bytes between the last
+    grant before the segment ([t0]) and the last grant in it ([t1]), provided
+    clock readings do not decrease. *)
+Fixpoint clocks_from (t : Q) (ops : list bop) : Prop :=
+  match ops with
+  | [] => True
+  | op :: r => t <= op_clock t op /\ clocks_from (op_clock t op) r
+  end.
+
+Fixpoint immediate_bytes (alpha mx : Q) (b : bucket) (ops : list bop) : Z :=
+  match ops with
+  | [] => 0%Z
+  | op :: r =>
+      (match op with
+       | Consume amt tok _ =>
+           if is_scheduled tok (sch b) then 0
+           else match snd (bstep alpha mx b op) with Some Granted => amt | _ => 0 end
+       | Cancel _ => 0
+       end + immediate_bytes alpha mx (fst (bstep alpha mx b op)) r)%Z
+  end.
+
+Lemma immediate_bytes_mixed alpha mx : 0 < alpha -> alpha <= 1 -> 0 < mx ->
+  forall seg b t0 t, Forall op_ok seg -> Inv mx b -> last_time (trk b) = Some t0 -> t0 <= t ->
+  clocks_from t seg ->
+  exists t1, last_time (trk (run_state alpha mx b seg)) = Some t1 /\ t0 <= t1 /\
+    inject_Z (immediate_bytes alpha mx b seg) <= / alpha * mx * (t1 - t0).
+Proof.
+  intros Ha0 Ha1 Hm. set (K := / alpha * mx).
+  assert (HK : 0 <= K).
+  { unfold K. apply Qmult_le_0_compat; [apply Qlt_le_weak, Qinv_lt_0_compat, Ha0|lra]. }
+  induction seg as [|op seg IH]; intros b t0 t Hok Hi Hl Ht Hc;
+    cbn [run_state immediate_bytes clocks_from] in *.
+  - exists t0. repeat split; [exact Hl|apply Qle_refl|].
+    setoid_replace (K * (t0 - t0)) with 0 by ring. apply Qle_refl.
+  - inversion Hok as [|? ? Hop Hok']; subst. destruct Hc as [Hc1 Hc].
+    pose proof (bstep_inv alpha mx b op ltac:(lra) Ha1 Hm Hop Hi) as Hi'.
+    destruct op as [amt tok now|tok]; cbn [bstep op_clock] in *.
+    + pose proof (consume_tracker alpha mx amt tok now b) as Htr.
+      pose proof (immediate_grant_bound_gen alpha mx b amt tok now t0) as Hb.
+      destruct (is_scheduled tok (sch b)) eqn:Es.
+      * (* scheduled release: moves the last grant time forward *)
+        pose proof (scheduled_granted alpha mx b amt tok now Es) as Hg.
+        destruct (consume_with alpha mx amt tok now b) as [b' d]. cbn [fst snd] in *. subst d.
+        assert (Hl' : last_time (trk b') = Some now) by (rewrite Htr; apply record_last_time).
+        destruct (IH b' now now Hok' Hi' Hl' (Qle_refl now) Hc) as (t1 & H1 & H2 & H3).
+        exists t1. split; [exact H1|]. split; [lra|].
+        assert (K * (t1 - now) <= K * (t1 - t0)) by nra.
+        rewrite Z.add_0_l. lra.
+      * destruct (consume_with alpha mx amt tok now b) as [b' d]. cbn [fst snd] in *.
+        destruct d as [|w].
+        -- destruct (Hb b' Ha0 Ha1 Hm (proj2 Hi) eq_refl Hl eq_refl) as [Hlt Hamt]. fold K in Hamt.
+           assert (Hl' : last_time (trk b') = Some now) by (rewrite Htr; apply record_last_time).
+           destruct (IH b' now now Hok' Hi' Hl' (Qle_refl now) Hc) as (t1 & H1 & H2 & H3).
+           exists t1. split; [exact H1|]. split; [lra|]. rewrite inject_Z_plus. lra.
+        -- assert (Hl' : last_time (trk b') = Some t0) by now rewrite Htr.
+           destruct (IH b' t0 now Hok' Hi' Hl' ltac:(lra) Hc) as (t1 & H1 & H2 & H3).
+           exists t1. now repeat split.
+    + cbn [fst snd] in *.
+      assert (Hl' : last_time (trk (cancel tok b)) = Some t0) by now rewrite cancel_tracker.
+      destruct (IH _ t0 t Hok' Hi' Hl' Ht Hc) as (t1 & H1 & H2 & H3).
+      exists t1. now repeat split.
+Qed.
+
+(** * Several streams on one bucket: scheduled tokens = streams asleep in their loop *)
+
+Definition ev_ok (ev : sev) : Prop :=
+  match ev with EvRead _ amount _ _ => (0 <= amount)%Z | _ => True end.
+
+Record sys_inv (mx : Q) (y : sys) : Prop := {
+  yi_inv : Inv mx (y_bucket y);
+  yi_tok : forall sid, s_tok (ss_stream (get_stream sid (y_streams y))) = sid;
+  yi_seen : forall sid, (0 <= s_seen (ss_stream (get_stream sid (y_streams y))))%Z;
+  yi_live : forall sid, is_scheduled sid (sch (y_bucket y)) = true <->
+                        ss_pending (get_stream sid (y_streams y)) <> PNone
+}.
+
+Fixpoint sys_state (thr : Z) (alpha mx : Q) (y : sys) (evs : list sev) : sys :=
+  match evs with
+  | [] => y
+  | ev :: r => sys_state thr alpha mx (fst (sys_step thr alpha mx y ev)) r
+  end.
+
+Lemma get_set_same sid s l : get_stream sid (set_stream sid s l) = s.
+Proof.
+  induction l as [|[k s0] l IH]; cbn [set_stream get_stream].
+  - now rewrite Z.eqb_refl.
+  - destruct (Z.eqb_spec k sid) as [->|Hne]; cbn [get_stream].
+    + now rewrite Z.eqb_refl.
+    + destruct (Z.eqb_spec k sid); [congruence|exact IH].
+Qed.
+
+Lemma get_set_other k sid s l : k <> sid -> get_stream k (set_stream sid s l) = get_stream k l.
+Proof.
+  intros Hne. induction l as [|[k0 s0] l IH]; cbn [set_stream get_stream].
+  - destruct (Z.eqb_spec sid k); [congruence|reflexivity].
+  - destruct (Z.eqb_spec k0 sid) as [->|Hn0]; cbn [get_stream].
+    + destruct (Z.eqb_spec sid k); [congruence|reflexivity].
+    + destruct (Z.eqb_spec k0 k); [reflexivity|exact IH].
+Qed.
+
+Lemma is_scheduled_ext k s1 s2 : lookup k (tokens s1) = lookup k (tokens s2) ->
+  is_scheduled k s1 = is_scheduled k s2.
+Proof. unfold is_scheduled. now intros ->. Qed.
+
+Lemma granted_not_scheduled alpha mx amt tok now b b' : 0 < mx -> Inv mx b ->
+  consume_with alpha mx amt tok now b = (b', Granted) -> is_scheduled tok (sch b') = false.
+Proof.
+  intros Hm Hi. unfold consume_with. destruct (is_scheduled tok (sch b)) eqn:Es.
+  - intros [= <-]. cbn [sch]. destruct (proj1 (is_scheduled_lookup _ _) Es) as [e El].
+    now destruct (process_spec mx (sch b) tok e Hm (proj1 Hi) El) as (_ & _ & H).
+  - destruct (exceeds mx _).
+    + destruct (schedule_consumption _ _ _ _); discriminate.
+    + intros [= <-]. exact Es.
+Qed.
+
+(** replacing the record of stream [sid] and the bucket, when every other
+    token's scheduling is untouched *)
+Lemma sys_inv_update mx y b' sid st' p' :
+  sys_inv mx y -> Inv mx b' -> s_tok st' = sid -> (0 <= s_seen st')%Z ->
+  (is_scheduled sid (sch b') = true <-> p' <> PNone) ->
+  (forall k, k <> sid -> lookup k (tokens (sch b')) = lookup k (tokens (sch (y_bucket y)))) ->
+  sys_inv mx (mkSys b' (set_stream sid (mkS st' p') (y_streams y))).
+Proof.
+  intros [Hi Htok Hseen Hlive] Hi' Ht Hs Hl Hoth. split; cbn [y_bucket y_streams].
+  - exact Hi'.
+  - intros k. destruct (Z.eq_dec k sid) as [->|Hne].
+    + now rewrite get_set_same.
+    + rewrite get_set_other by exact Hne. apply Htok.
+  - intros k. destruct (Z.eq_dec k sid) as [->|Hne].
+    + now rewrite get_set_same.
+    + rewrite get_set_other by exact Hne. apply Hseen.
+  - intros k. destruct (Z.eq_dec k sid) as [->|Hne].
+    + now rewrite get_set_same.
+    + rewrite get_set_other by exact Hne.
+      rewrite (is_scheduled_ext k (sch b') (sch (y_bucket y)) (Hoth k Hne)). apply Hlive.
+Qed.
+
+Lemma sys_iter_inv alpha mx y sid st why exc now :
+  0 <= alpha -> alpha <= 1 -> 0 < mx -> sys_inv mx y ->
+  s_tok st = sid -> (0 <= s_seen st)%Z -> why <> PNone ->
+  sys_inv mx (fst (sys_iter alpha mx y sid st why exc now)).
+Proof.
+  intros A0 A1 Hm Hy Ht Hs Hwhy. pose proof (yi_inv mx y Hy) as Hi. subst sid.
+  unfold sys_iter, loop_iter. destruct exc.
+  - cbn [fst]. apply sys_inv_update; try assumption; try reflexivity.
+    + now apply cancel_inv.
+    + rewrite (cancel_not_scheduled mx (s_tok st) _ Hm Hi). split; [discriminate|tauto].
+    + intros k Hne. apply (bstep_lookup_other alpha mx (y_bucket y) (Cancel (s_tok st)) k). cbn. congruence.
+  - pose proof (consume_inv alpha mx (s_seen st) (s_tok st) now (y_bucket y) A0 A1 Hm Hs Hi) as Hi'.
+    pose proof (bstep_lookup_other alpha mx (y_bucket y) (Consume (s_seen st) (s_tok st) now)) as Hoth.
+    cbn [bstep] in Hoth.
+    destruct (consume_with alpha mx (s_seen st) (s_tok st) now (y_bucket y)) as [b' [|w]] eqn:Ec;
+      cbn [fst] in *.
+    + apply sys_inv_update; try assumption; cbn [s_tok s_seen]; try reflexivity; try lia.
+      * rewrite (granted_not_scheduled _ _ _ _ _ _ _ Hm Hi Ec). split; [discriminate|tauto].
+      * intros k Hne. apply Hoth. cbn. congruence.
+    + apply sys_inv_update; try assumption; try reflexivity.
+      * rewrite (refused_is_scheduled _ _ _ _ _ _ _ _ Ec). tauto.
+      * intros k Hne. apply Hoth. cbn. congruence.
+Qed.
+
+Lemma sys_inv_same_bucket mx y sid st' p' :
+  sys_inv mx y -> s_tok st' = sid -> (0 <= s_seen st')%Z ->
+  p' = ss_pending (get_stream sid (y_streams y)) ->
+  sys_inv mx (mkSys (y_bucket y) (set_stream sid (mkS st' p') (y_streams y))).
+Proof.
+  intros Hy Ht Hs Hp. apply sys_inv_update; try assumption.
+  - apply Hy.
+  - subst p'. apply Hy.
+  - reflexivity.
+Qed.
+
+Lemma sys_step_inv thr alpha mx y ev : 0 <= alpha -> alpha <= 1 -> 0 < mx -> ev_ok ev ->
+  sys_inv mx y -> sys_inv mx (fst (sys_step thr alpha mx y ev)).
+Proof.
+  intros A0 A1 Hm Hev Hy. destruct ev as [sid amount exc now|sid exc now|sid exc now|sid|sid];
+    cbn [sys_step ev_ok] in *.
+  - pose proof (yi_tok mx y Hy sid) as Ht. pose proof (yi_seen mx y Hy sid) as Hs.
+    destruct (ss_pending (get_stream sid (y_streams y))) eqn:Ep; [|exact Hy|exact Hy].
+    unfold read_enter. destruct (negb (s_enabled (ss_stream (get_stream sid (y_streams y))))).
+    + cbn [fst]. apply sys_inv_same_bucket; try assumption. now rewrite Ep.
+    + destruct (s_seen (ss_stream (get_stream sid (y_streams y))) + amount <? thr)%Z.
+      * cbn [fst]. apply sys_inv_same_bucket; cbn [s_tok s_seen]; try assumption; try lia. now rewrite Ep.
+      * apply sys_iter_inv; cbn [s_tok s_seen]; try assumption; try lia. discriminate.
+  - pose proof (yi_tok mx y Hy sid) as Ht. pose proof (yi_seen mx y Hy sid) as Hs.
+    destruct (ss_pending (get_stream sid (y_streams y))) eqn:Ep; [exact Hy| |];
+      apply sys_iter_inv; try assumption; discriminate.
+  - pose proof (yi_tok mx y Hy sid) as Ht. pose proof (yi_seen mx y Hy sid) as Hs.
+    destruct (ss_pending (get_stream sid (y_streams y))) eqn:Ep; [|exact Hy|exact Hy].
+    destruct (close_enter (ss_stream (get_stream sid (y_streams y)))); [|exact Hy].
+    apply sys_iter_inv; try assumption. discriminate.
+  - cbn [fst]. apply sys_inv_same_bucket; cbn [set_enabled s_tok s_seen]; try reflexivity; apply Hy.
+  - cbn [fst]. apply sys_inv_same_bucket; cbn [set_enabled s_tok s_seen]; try reflexivity; apply Hy.
+Qed.
+
+Lemma sys0_inv mx : sys_inv mx sys0.
+Proof.
+  split; cbn [sys0 y_bucket y_streams get_stream ss_stream ss_pending stream0 s_tok s_seen].
+  - apply bucket0_inv.
+  - reflexivity.
+  - lia.
+  - intros sid. cbn. split; [discriminate|tauto].
+Qed.
+
+Lemma sys_state_inv thr alpha mx : 0 <= alpha -> alpha <= 1 -> 0 < mx ->
+  forall evs y, Forall ev_ok evs -> sys_inv mx y -> sys_inv mx (sys_state thr alpha mx y evs).
+Proof.
+  intros A0 A1 Hm. induction evs as [|ev evs IH]; intros y Hok Hy; cbn [sys_state]; [exact Hy|].
+  inversion Hok; subst. apply IH; [assumption|]. now apply sys_step_inv.
+Qed.
+
+Lemma immediate_bytes_mixed_src mx b seg t0 t :
+  0 < mx -> Inv mx b -> Forall op_ok seg -> last_time (trk b) = Some t0 -> t0 <= t ->
+  clocks_from t seg ->
+  exists t1, last_time (trk (run_state BW_ALPHA mx b seg)) = Some t1 /\ t0 <= t1 /\
+    inject_Z (immediate_bytes BW_ALPHA mx b seg) <= (5 # 4) * mx * (t1 - t0).
+Proof.
+  intros Hm Hi Hok Hl Ht Hc. destruct alpha_range as [A0 A1].
+  destruct (immediate_bytes_mixed BW_ALPHA mx A0 (Qlt_le_weak _ _ A1) Hm seg b t0 t Hok Hi Hl Ht Hc)
+    as (t1 & H1 & H2 & H3).
+  exists t1. split; [exact H1|]. split; [exact H2|]. eapply Qle_trans; [exact H3|].
+  rewrite inv_alpha_is_5_4. apply Qle_refl.
 Qed.
